@@ -541,3 +541,31 @@ m("x7-retry-matches-two-kinds", "C14", IO, _RE_ORIG, _re_match("std::io::ErrorKi
 m("x7-retry-matches-any-io-error", "C14", IO, _RE_ORIG, "            match r {\n                Err(crate::VolatileMemoryError::IOError(_)) => continue,\n                _ => break r,\n            }", "R14.1.retry_loop")
 m("x7-raw-fd-try-from-abs", "C13", IO, "    if bytes_written < 0 {\n        Err(VolatileMemoryError::IOError(std::io::Error::last_os_error()))\n    } else {\n        Ok(bytes_written.try_into().unwrap())\n    }",
   "    usize::try_from(bytes_written.wrapping_abs())\n        .map_err(|_| VolatileMemoryError::IOError(std::io::Error::last_os_error()))", "R13.5.raw_fd")
+
+# from_arc_regions validating neighbours with zip(skip(1)).try_for_each (accepted since refactor round 5), each with one defect
+_VAL_ORIG = """        for window in regions.windows(2) {
+            let prev = &window[0];
+            let next = &window[1];
+
+            if prev.start_addr() > next.start_addr() {
+                return Err(Error::UnsortedMemoryRegions);
+            }
+
+            if prev.last_addr() >= next.start_addr() {
+                return Err(Error::MemoryRegionOverlap);
+            }
+        }"""
+def _val_zip(skip="1", ovl=">=", first="prev", second="next"):
+    return f"""        regions
+            .iter()
+            .zip(regions.iter().skip({skip}))
+            .try_for_each(|(prev, next)| {{
+                match {first}.start_addr().cmp(&{second}.start_addr()) {{
+                    std::cmp::Ordering::Greater => Err(Error::UnsortedMemoryRegions),
+                    _ if prev.last_addr() {ovl} next.start_addr() => Err(Error::MemoryRegionOverlap),
+                    _ => Ok(()),
+                }}
+            }})?;"""
+m("x7-validate-zip-skip-two", "C10", MM, _VAL_ORIG, _val_zip(skip="2"), "?")
+m("x7-validate-zip-overlap-strict", "C10", MM, _VAL_ORIG, _val_zip(ovl=">"), "?")
+m("x7-validate-zip-order-reversed", "C10", MM, _VAL_ORIG, _val_zip(first="next", second="prev"), "?")
